@@ -321,11 +321,10 @@ func Run(j *job.Job, s *job.Sink) {
 			}
 		}
 		// One history in five offers a text that holds several top-level statements. When a
-		// later statement is rejected, goyang keeps the modules that came before it in the
-		// same text (the caveat documented on Modules.Parse). Whatever it keeps must be
-		// whole: the set then has to behave as if exactly the kept statements had been
-		// offered, typedefs and all. The first module defines typedefs at the top and in a
-		// container, the optional second one derives from them across an import.
+		// later statement is rejected the whole text is a failed load, and nothing of it may
+		// stay: not the modules that came before the rejected statement, not their typedefs.
+		// The first module defines typedefs at the top and in a container, the optional
+		// second one derives from them across an import.
 		if r.Intn(5) == 0 {
 			ma := "module zzma {\n  namespace \"urn:zzma\";\n  prefix za;\n  typedef t1 { type int8 { range \"1..5\"; } }\n  container c {\n    typedef t2 { type t1; }\n    leaf l { type t2; }\n  }\n  grouping g { typedef t4 { type string { length \"2\"; } } leaf gl { type t4; } }\n  uses g;\n  leaf top { type t1; }\n}\n"
 			mb := "module zzmb {\n  namespace \"urn:zzmb\";\n  prefix zb;\n  import zzma { prefix za; }\n  typedef t3 { type za:t1; }\n  leaf x { type za:t1; }\n  leaf y { type t3; }\n  uses za:g;\n}\n"
@@ -402,7 +401,6 @@ func Run(j *job.Job, s *job.Sink) {
 			}()
 			ms := yang.NewModules()
 			var good []op
-			var keptPrefix []string
 			failedLoads := 0
 			processedBefore := false
 			lastClean := false
@@ -421,9 +419,9 @@ func Run(j *job.Job, s *job.Sink) {
 						return
 					}
 					failedLoads++
-					// Which of the statements before the rejected one did the set keep? Either
-					// none (the load left no trace) or all of them, in which case the reference
-					// loads exactly those, under the same source name and at the same lines.
+					// A failed load leaves no trace: none of the statements of the text, also not
+					// the acceptable ones that stand before the rejected one, may be in the set
+					// (until fix 2efc706 the earlier ones stayed, which goyang documented).
 					var kept []string
 					for _, n := range []string{"zzma", "zzmb", "zzmc"} {
 						if ms.Modules[n] != nil {
@@ -431,17 +429,8 @@ func Run(j *job.Job, s *job.Sink) {
 						}
 					}
 					if len(kept) > 0 {
-						cut := strings.LastIndex(o.Text, "\nmodule ")
-						if k := strings.LastIndex(o.Text, "\ncontainer notamodule"); k > cut {
-							cut = k
-						}
-						if cut < 0 || strings.HasPrefix(o.Text, "module zzmc") || strings.HasPrefix(o.Text, "container") {
-							bad("failed-load-left-a-trace", fmt.Sprintf("the first statement of %s was rejected, yet the set holds %v", o.Name, kept), nil)
-							return
-						}
-						good = append(good, op{"load", o.Name, o.Text[:cut+1]})
-						keptPrefix = append(keptPrefix, kept...)
-						lastClean = false
+						bad("failed-load-left-a-trace", fmt.Sprintf("the load of %s failed, yet the set holds %v", o.Name, kept), nil)
+						return
 					}
 				case "load":
 					if err := ms.Parse(o.Text, o.Name); err != nil {
@@ -519,11 +508,6 @@ func Run(j *job.Job, s *job.Sink) {
 					continue
 				}
 				processedBefore = false
-			}
-			// Recorded finding c18-failed-multi-module-text-keeps-earlier-modules: the
-			// history was otherwise consistent with "the kept statements were offered".
-			if len(keptPrefix) > 0 {
-				bad("failed-multi-module-text-keeps-earlier-modules", fmt.Sprintf("the load of zzmulti.yang failed, the set keeps %v", keptPrefix), map[string]any{"kept_modules_behave_as_if_loaded_alone": true})
 			}
 		}()
 		if c%1500 == 0 && !reported {
